@@ -101,7 +101,8 @@ func doMatchMatches(expression *grammar.MatchExpression, value reflect.Value) (b
 		if err != nil {
 			return false, fmt.Errorf("Failed to compile regular expression %q: %v", expression.Value.Raw, err)
 		}
-		expression.Value.Converted = re
+		// Not cached here: the syntax tree is shared by concurrent calls of
+		// Evaluate. CreateEvaluator compiles the expression once up front.
 	}
 
 	return re.Match(value.Convert(byteSliceTyp).Interface().([]byte)), nil
